@@ -729,6 +729,18 @@ impl Mon {
             let dt = info.now - pre.last_update;
             if info.kind == Kind::Deposit && pre.total_asset_shares == post.total_asset_shares && pre.total_liability_shares == post.total_liability_shares {
                 // a deposit that deposited nothing (amount 0 / no remaining capacity) transacts nothing
+                // and is not required to accrue - but if it did move the share values or the fee
+                // buckets (it accrued), the accrual clock must have moved with them: interest booked
+                // without the clock is booked again by the next accrual ("accruing twice at the same
+                // time is a no-op")
+                let accrued = qq.asv != qp.asv || qq.lsv != qp.lsv || qq.f_ins != qp.f_ins || qq.f_grp != qp.f_grp || qq.f_prog != qp.f_prog;
+                if accrued {
+                    self.r.eval();
+                    self.r.count("C06.noop_deposits_that_accrued");
+                    if post.last_update != info.now {
+                        self.r.violate("C06", "C06/Deposit/interest-booked-without-bringing-the-accrual-clock-to-now", format!("bank {}: share values / fees moved, last_update {} -> {} at time {}", bk, pre.last_update, post.last_update, info.now));
+                    }
+                }
                 self.r.count("C06.noop_deposits_skipped");
                 continue;
             }
@@ -764,6 +776,26 @@ impl Mon {
             let dl = abs(&(&qq.lsv - &ra.lsv.v));
             if dl > ra.lsv.e {
                 self.r.violate("C06", &format!("C06/{}/liability-share-value-not-accrued-to-now", info.kind.name()), format!("bank {} dt {}: lsv {} -> {} but reference {} (+-{})", bk, dt, show(&qp.lsv), show(&qq.lsv), show(&ra.lsv.v), show(&ra.lsv.e)));
+            }
+            // a bankruptcy settles the whole debt *as accrued to now*: the bankrupt account's debt in
+            // this bank is gone afterwards. A settlement sized at the share value of the bank's previous
+            // instruction leaves the interest of the interval behind on the (disabled) account.
+            if is_bk {
+                for (ak, ap, aq) in &info.accts {
+                    if let (Some(ap), Some(aq)) = (ap, aq) {
+                        let sh = |a: &MarginfiAccount| a.lending_account.balances.iter().find(|b| b.active != 0 && &b.bank_pk == bk).map(|b| w_(&b.liability_shares)).unwrap_or_else(zero);
+                        let (before, after) = (sh(ap), sh(aq));
+                        if before.is_positive() {
+                            self.r.count(if informative { "C06.bankruptcies_after_elapsed_time_judged" } else { "C06.bankruptcies_without_elapsed_time_judged" });
+                            // what a stale sizing would leave behind is before x (1 - old/new share value);
+                            // rounding leaves a few grid steps at most
+                            let allow = ulp() * ri(1 << 12) + &before * ulp() * ri(16);
+                            if after > allow {
+                                self.r.violate("C06", "C06/HandleBankruptcy/debt-settled-at-the-share-value-before-accrual", format!("account {} bank {} dt {}: liability shares {} -> {} (share value {} -> {})", ak, bk, dt, show(&before), show(&after), show(&qp.lsv), show(&qq.lsv)));
+                            }
+                        }
+                    }
+                }
             }
             let mut socialised = false;
             if is_bk && qq.asv < ra.asv.v.clone() - &ra.asv.e {
